@@ -34,7 +34,8 @@ def base_disk(rng, fl):
 def mutate_disk(rng, asides, fl):
     """-> (raw bytes, label)"""
     kind = rng.choice(["cycle2", "selflink", "longcycle", "first_oob", "slash_name", "dotdot", "nul_name", "hi_name", "absurd_len",
-                       "flip_bat", "random_table", "random_catalog", "truncate", "random_bytes", "dangling", "shared", "dot_name"])
+                       "flip_bat", "random_table", "random_catalog", "truncate", "random_bytes", "dangling", "shared", "dot_name",
+                       "slash_noblock", "slash_noblock", "slash_lateslot", "nul_noblock"])
     sides = [D.py_render(a) for a in asides]
     s = [bytearray(x) for x in sides[0]]
     bat = s[20 * 16 + 1]
@@ -68,6 +69,16 @@ def mutate_disk(rng, asides, fl):
         if kind == "slash_name" and rng.random() < 0.5:
             sec[off:off + 8] = b"/tmp/ev "
             sec[off + 8:off + 11] = b"/x " if rng.random() < 0.5 else b"il "
+    elif kind in ("slash_noblock", "nul_noblock") and f:
+        # a live entry that owns no block (first block reserved or free) AND carries a hostile name
+        sec, off = cat_entry(f["slot"])
+        sec[off:off + 8] = b"../../ES" if kind == "slash_noblock" else b"A\x00B     "
+        sec[off + 8:off + 11] = b"CAP"
+        sec[off + 13] = rng.choice([0, 40, 41] + [b for b in range(160) if bat[1 + b] == 0xFF][:3])
+    elif kind == "slash_lateslot":
+        # a hostile name in the very last catalog slot, on a never-used entry made live, pointing at a real chain
+        sec, off = cat_entry(111)
+        sec[off:off + 32] = b"../ESC  BIN" + bytes([2, 0, f["chain"][0] if f else 1, 0, 5]) + bytes(16)
     elif kind == "absurd_len" and f:
         sec, off = cat_entry(f["slot"])
         sec[off + 14], sec[off + 15] = rng.choice([(0xFF, 0xFF), (1, 0), (0x7F, 3)])
